@@ -27,4 +27,6 @@ def run(rep, fb, tier):
     from ..rules import lints2 as _l2
     _l2.rule_regularized_bounds(rep, fb)
     _l2.rule_form_array_simplify(rep, fb)
+    from ..rules import pyrules as _pr4
+    _pr4.rule_py_defassign(rep)
     rep.units = fb.units + ["src/awkward/partition.py, _util.py, operations/structure.py (ast)"]
